@@ -10,6 +10,7 @@ var (
 	_ ColumnOf[Nullable[string]] = (*ColNullable[string])(nil)
 	_ StateEncoder               = (*ColNullable[string])(nil)
 	_ StateDecoder               = (*ColNullable[string])(nil)
+	_ Inferable                  = (*ColNullable[string])(nil)
 
 	_ = ColNullable[string]{
 		Values: new(ColStr),
@@ -79,6 +80,16 @@ func (c ColNullable[T]) EncodeState(b *Buffer) {
 
 func (c ColNullable[T]) Type() ColumnType {
 	return ColumnTypeNullable.Sub(c.Values.Type())
+}
+
+// Infer ensures Inferable column propagation.
+func (c *ColNullable[T]) Infer(t ColumnType) error {
+	if v, ok := c.Values.(Inferable); ok {
+		if err := v.Infer(t.Elem()); err != nil {
+			return errors.Wrap(err, "infer values")
+		}
+	}
+	return nil
 }
 
 func (c *ColNullable[T]) DecodeColumn(r *Reader, rows int) error {
